@@ -10,6 +10,15 @@
            &&& ver is Ok ==> ({
                  let route = route_of(server.router, req_method(wrapped(request)), uri_path(req_uri(wrapped(request))), ver->Ok_0);
                  route is Err ==> r == Err::<Response, HandlerError>(HandlerError::Dropshot(route->Err_0)) }) }), // @policy_and_routing_errors_returned_unchanged_no_handler
+        // once the version and the route are found, the outcome IS the handler's: its error unchanged, its response with
+        // the request id stamped on -- never an error of the glue's own making
+        ({ let ver = policy_version(server.version_policy, wrapped(request));
+           ver is Ok && route_of(server.router, req_method(wrapped(request)), uri_path(req_uri(wrapped(request))), ver->Ok_0) is Ok ==>
+             exists|rq: RequestContext<C>| #![trigger dispatch_outcome(route_of(server.router, req_method(wrapped(request)), uri_path(req_uri(wrapped(request))), ver->Ok_0)->Ok_0.handler, rq, wrapped(request))]
+                ({ let out = dispatch_outcome(route_of(server.router, req_method(wrapped(request)), uri_path(req_uri(wrapped(request))), ver->Ok_0)->Ok_0.handler, rq, wrapped(request));
+                   &&& handler_may_run(route_of(server.router, req_method(wrapped(request)), uri_path(req_uri(wrapped(request))), ver->Ok_0)->Ok_0.handler, rq, wrapped(request), remote_addr)
+                   &&& (r is Ok) == (out is Ok)
+                   &&& out is Err ==> r == Err::<Response, HandlerError>(out->Err_0) }) }), // @the_handlers_outcome_is_what_comes_back
         // C13: "Every response ... carries an x-request-id header ... equal ... to the request id the handler was given"
         r is Ok ==> exists|h: Response| #[trigger] produced_by_handler(h)
             && r->Ok_0.status == h.status && r->Ok_0.body == h.body
